@@ -19,6 +19,7 @@ THEOREMS = [
     "Nix.C06.C06_transform_refuses",
     "Nix.C06.C06_view_read",
     "Nix.C06.C06_write_exact",
+    "Nix.C06.C06_array",
 ]
 ASSUMPTIONS = [
     "array content is not modelled here (C01): reads and writes are described by the ordered list of parent "
